@@ -106,7 +106,7 @@ def run(ctx, factor):
                 "commas): must be identical; streams are also compared with the model's encoding and remembered to detect "
                 "two lists with one stream")
     seen = {}
-    for _ in range(ctx.budget(500, 15000) * factor):
+    for _ in range(ctx.budget(900, 15000) * factor):
         lines = gen_lines.listing(g, g.int(0, 8), decorate=g.chance(0.5))
         r = ctx.driver.call({"op": "linespec", "lines": lines})["ok"]
         check_text(ctx, r["text"], "grammar", seen)
@@ -114,7 +114,7 @@ def run(ctx, factor):
             return
     # operand decorations objdump prints for AVX-512 code (masks, zeroing, broadcast, rounding): outside the C09 forms,
     # inside this property's quantifier ("every instruction list the parser can produce from objdump output")
-    for _ in range(ctx.budget(150, 5000) * factor):
+    for _ in range(ctx.budget(300, 5000) * factor):
         check_text(ctx, decorated_listing(g), "avx512-decorated-operands", seen)
         if rep.has_new() and factor > 1:
             return
